@@ -105,8 +105,9 @@ func (prog *Prog) buildProg(as abi.As, arg *abi.X64Argument) (inst *Prog, err er
 		default:
 			panic("unreachable")
 		}
-		prog.From = src
-		prog.To = dst
+		// Plan 9 CMPx compares From with To: Intel `cmp dst, src` is CMPx dst, src
+		prog.From = dst
+		prog.To = src
 
 	case ACMOVNE: // cmovne
 		// cmovne r10d, r11d
@@ -612,10 +613,10 @@ func (prog *Prog) buildProg(as abi.As, arg *abi.X64Argument) (inst *Prog, err er
 	case APUSH: // push
 		// push rbp
 		assert(prog.nArg(arg) == 1)
-		prog.From = src
+		prog.From = dst // the one-operand form carries its operand in Dst
 		switch prog.xLen(arg) {
 		case 1:
-			assert(arg.Src.Reg == REG_AL)
+			assert(arg.Dst.Reg == REG_AL)
 			prog.As = p9x86.APUSHAL
 		case 2:
 			prog.As = p9x86.APUSHW
@@ -626,7 +627,6 @@ func (prog *Prog) buildProg(as abi.As, arg *abi.X64Argument) (inst *Prog, err er
 		default:
 			panic("unreachable")
 		}
-		prog.To = dst
 
 	case ARET: // ret
 		assert(prog.nArg(arg) == 0)
